@@ -162,6 +162,8 @@ def main(argv):
     tier = common.tier()
     n = 1600 if tier == "quick" else 80000
     rep = common.Report(PROP)
+    from checks import minimise as _MIN
+    rep.minimiser = lambda f: _MIN.scenario(f, lambda scn, seed: check(scn, seed))
     items = list(range(n)) + [("rare", k) for k in range(260 if tier == "quick" else 13000)]
     for r in common.run_batch("checks.c11", "run_one", items, {"tier": tier}):
         rep.absorb(r)
